@@ -716,4 +716,18 @@ theorem filterLiteral_cpp_fallback (f : Frac) (hd : 0 < f.den) {w : Nat} (hw : w
   congr 1
 
 
+/-! ### vocabulary of the property statements -/
+
+/-- the C / C++ type of a floating constant of `w` bits (`_CFit.to_c_float`) -/
+def floatCType (w : Nat) : CType := if w ≤ 32 then .float else .double
+
+/-- What the rendered quotient denotes: the fraction rounded to nearest-even into binary64 by the division of the two
+exactly represented operands, then (for `float`) converted to binary32 by the cast. -/
+def floatDenotation (w : Nat) (f : Frac) : FVal :=
+  if w ≤ 32 then convertF binary64 binary32 (roundFrac binary64 f) else roundFrac binary64 f
+
+/-- the value lies inside the range of the C type (`|f| ≤ FLT_MAX` / `DBL_MAX`; PyDSDL's range check implies it) -/
+def FloatInRange (w : Nat) (f : Frac) : Prop := if w ≤ 32 then InRange32 f else InRange64 f
+
+
 end NunavutVerif.CLiteral
